@@ -144,7 +144,7 @@ type hcase struct {
 	Opts   []kv   `json:"-"`
 	OptS   string `json:"opts"`
 	Method string `json:"method"`
-	Body   string `json:"body,omitempty"` // add body class
+	Body   string `json:"body,omitempty"`          // add body class
 	Enc    string `json:"path_spelling,omitempty"` // percent-encoded spelling of the same path ("" = canonical)
 	Target string `json:"target"`
 }
@@ -668,6 +668,9 @@ func runHijackCases(t *testing.T, sec *ev.Section, cases []hcase) {
 }
 
 func hijackKey(c *hcase, v vio) string {
+	if daemonDown {
+		return fmt.Sprintf("C12|%s|%s|daemon-unreachable|%s", c.Cmd, c.Style, v.symptom)
+	}
 	if c.Enc != "" {
 		return fmt.Sprintf("C12|%s|%s|spelling:%s|%s", c.Cmd, c.Style, c.Enc, v.symptom)
 	}
@@ -709,6 +712,32 @@ func TestHijackSingles(t *testing.T) {
 	sec.Bounds["methods"] = allMethods
 	sec.Bounds["pin/update to-path"] = "fixed /ipfs/<cidA> (varied in hijack/pin-update-to)"
 	sec.Bounds["add body"] = "one 40-byte file (varied in hijack/add-bodies)"
+	runHijackCases(t, sec, cases)
+}
+
+// TestHijackDaemonUnreachable: the hijacked commands are answered by the
+// proxy from cluster operations; that does not depend on the daemon being up
+// (its only part is the best-effort header copy). Every command x style x
+// argument x (no option | one option), POST and GET, with the daemon stopped.
+func TestHijackDaemonUnreachable(t *testing.T) {
+	sec := R.Sec("hijack/daemon-unreachable")
+	daemonDown = true
+	defer func() { daemonDown = false }()
+	var cases []hcase
+	sets := optionSets(false)
+	for _, cmd := range commands {
+		for _, style := range []string{"query", "slash"} {
+			for _, a := range argAlphabet {
+				for _, os := range sets {
+					for _, m := range []string{"POST", "GET"} {
+						cases = append(cases, hcase{Cmd: cmd, Style: style, Arg: a, To: argByName("ipfs-path"), Opts: os, Method: m, Body: bodyFor(cmd)})
+					}
+				}
+			}
+		}
+	}
+	sec.Bounds["daemon"] = "stopped after the rig's warm-up request: every connection attempt is refused"
+	sec.Bounds["methods"] = []string{"POST", "GET"}
 	runHijackCases(t, sec, cases)
 }
 
